@@ -61,6 +61,20 @@ struct GInLaneRev
 {
     static constexpr size_t get(size_t i, size_t n) { return n >= 4 ? (i & ~size_t(3)) | (3 - (i & 3)) : n - 1 - i; }
 };
+// in-lane masks whose pattern differs from one group of G elements to the next (G = 4: 128-bit lanes of 32-bit
+// elements; G = 2: of 64-bit elements): the class of masks an "in-lane permute" fast path must tell apart from
+// the same pattern repeated in every lane
+template <unsigned S, unsigned G>
+struct GInLaneMix
+{
+    static constexpr size_t get(size_t i, size_t n) { return n >= 2 * G ? ((i / G) * G + cmix(S * 131 + (i / G) * 17 + (i % G) * 5 + 1) % G) : i; }
+};
+using GMix4a = GInLaneMix<1, 4>;
+using GMix4b = GInLaneMix<2, 4>;
+using GMix4c = GInLaneMix<3, 4>;
+using GMix2a = GInLaneMix<1, 2>;
+using GMix2b = GInLaneMix<2, 2>;
+using GMix8a = GInLaneMix<1, 8>;
 struct GCrossLane // element i of the other half, reversed inside the half
 {
     static constexpr size_t get(size_t i, size_t n) { return n >= 4 ? ((i < n / 2) ? n - 1 - i : n / 2 - 1 - (i - n / 2)) : n - 1 - i; }
@@ -630,8 +644,8 @@ static void dyn(Rng& rng)
             alignas(64) T mat[N][N];
             for (size_t i = 0; i < N; ++i)
             {
-                for (size_t j = 0; j < N; ++j)
-                    mat[i][j] = frombits<T>((bits_t<T>)((rng.next() << 16) | (i << 8) | j));
+                for (size_t j = 0; j < N; ++j) // every cell distinct from its row/column neighbours for every width (8-bit too)
+                    mat[i][j] = frombits<T>(sizeof(T) == 1 ? (bits_t<T>)((i * 67 + j * 29 + (i ^ j) + (size_t)it) & 0xff) : (bits_t<T>)((rng.next() << 16) | (i << 8) | j));
                 m[i] = B::load_aligned(mat[i]);
             }
             mark_case("transpose", tname<T>(), mat, 64);
@@ -697,6 +711,12 @@ static void all_ops(uint64_t seed)
     CS(GPairs)
     CS(GLowHalfOnly)
     CS(GHighHalfOnly)
+    CS(GMix4a)
+    CS(GMix4b)
+    CS(GMix4c)
+    CS(GMix2a)
+    CS(GMix2b)
+    CS(GMix8a)
     CS(GSplitHigh<1>)
     CS(GSplitHigh<2>)
     CS(GSplitHigh<3>)
